@@ -54,6 +54,16 @@ def extra_subjects():
             S("Clue[cluster n_init]", "Clue", {"cluster_algo_dict": {"n_init": 1}}, "pwc", cost=2),
             S("DropQuery[cluster n_init]", "DropQuery", {"cluster_algo_dict": {"n_init": 1}}, "pwc", cost=2),
             S("CostEmbeddingAL[default]", "CostEmbeddingAL", {}, None, samplewise=True, needs_classes=True, cost=20, quick=False),
+            # array-valued constructor parameters given as (unsorted / asymmetric) float64 ndarrays: they are the caller's arrays
+            S("ProbCover[deltas=ndarray]", "ProbCover", {"cluster_algo_dict": SP.KM, "deltas": SP._lazy(lambda missing_label, classes: np.array([1.2, 0.3, 0.9]))},
+              None),
+            S("ProbabilisticAL[prior=ndarray]", "ProbabilisticAL", {"prior": SP._lazy(lambda missing_label, classes: np.array([2.0, 0.5]))}, "pwc",
+              samplewise=True),
+            S("UncertaintySampling[cost_matrix=ndarray]", "UncertaintySampling",
+              {"method": "least_confident", "cost_matrix": SP._lazy(lambda missing_label, classes: np.array([[0.0, 2.0], [1.0, 0.0]]))}, "pwc", samplewise=True),
+            S("CostEmbeddingAL[cost_matrix=ndarray]", "CostEmbeddingAL",
+              {"mds_params": {"n_init": 1, "max_iter": 30}, "cost_matrix": SP._lazy(lambda missing_label, classes: np.array([[0.0, 2.0], [1.0, 0.0]]))}, None,
+              samplewise=True, needs_classes=True, cost=6),
         ]
     return EXTRA_SUBJECTS
 
